@@ -4,9 +4,11 @@ import (
 	"encoding/json"
 	"fmt"
 	"math/rand"
+	"regexp"
 	"runtime"
 	"runtime/debug"
 	"sort"
+	"strings"
 	"sync"
 	"time"
 
@@ -17,27 +19,28 @@ import (
 
 // SeqScenario is a sequential (single producer, lock-step) scenario for any query kind.
 type SeqScenario struct {
-	Tr     int              `json:"tr"`
-	Meta   map[string]any   `json:"meta"` // copied onto the reset line for the TLA+ monitor
-	SQL    string           `json:"sql"`
-	Mode   string           `json:"mode"`    // emit (default) | sync
-	Rows   []map[string]any `json:"rows"`    // typed input rows (see Decode)
-	MaxPar int              `json:"maxpart"` // WithAnalyticMaxPartitions when > 0
-	Chan   bool             `json:"chan"`    // also read ToChannel()
-	Stop   bool             `json:"stop"`    // call Stop before the quiesce event (CEP flush)
-	Sort   string           `json:"sort"`    // sort delivered rows of a batch by this column (when the statement leaves order open)
-	Tables []SeqTable       `json:"tables"`
-	Burst  bool             `json:"burst"`  // emit every row without waiting in between (ordering / conservation); quiesce once at the end
-	Hold   string           `json:"hold"`   // burst only: name of a hook point at which the engine goroutine is held until every row has been handed in
-	Perf   *SeqPerf         `json:"perf"`   // custom performance configuration
-	Ops    []SeqOp          `json:"ops"`    // optional explicit operation list (JOIN scenarios); when empty: emit every row
-	GapMs  int64            `json:"gap_ms"` // STATETTL scenarios: real-time pause before every row
-	TTLMs  int64            `json:"ttl_ms"` // STATETTL of the query: the trace is voided when the driver itself let a group idle too long
-	Span   int              `json:"span"`   // rows of one group are at most this many positions apart
-	MaxGap int64            `json:"max_gap_ms"` // real-time scenarios: two rows handed in one after the other (no sleep between them) must not be further apart; else the trace is void
-	Reuse  bool             `json:"reuse"`  // the producer re-uses ONE map object for all its rows (cleared and refilled before each call)
-	Conc   bool             `json:"conc"`   // JOIN scenarios: table updates run in a goroutine of their own, concurrently with EmitSync callers
-	Seed   int64            `json:"seed"`
+	Tr     int               `json:"tr"`
+	Meta   map[string]any    `json:"meta"` // copied onto the reset line for the TLA+ monitor
+	SQL    string            `json:"sql"`
+	Mode   string            `json:"mode"`    // emit (default) | sync
+	Rows   []map[string]any  `json:"rows"`    // typed input rows (see Decode)
+	MaxPar int               `json:"maxpart"` // WithAnalyticMaxPartitions when > 0
+	Chan   bool              `json:"chan"`    // also read ToChannel()
+	Stop   bool              `json:"stop"`    // call Stop before the quiesce event (CEP flush)
+	Sort   string            `json:"sort"`    // sort delivered rows of a batch by this column (when the statement leaves order open)
+	Tables []SeqTable        `json:"tables"`
+	Burst  bool              `json:"burst"`      // emit every row without waiting in between (ordering / conservation); quiesce once at the end
+	Hold   string            `json:"hold"`       // burst only: name of a hook point at which the engine goroutine is held until every row has been handed in
+	Perf   *SeqPerf          `json:"perf"`       // custom performance configuration
+	Ops    []SeqOp           `json:"ops"`        // optional explicit operation list (JOIN scenarios); when empty: emit every row
+	GapMs  int64             `json:"gap_ms"`     // STATETTL scenarios: real-time pause before every row
+	TTLMs  int64             `json:"ttl_ms"`     // STATETTL of the query: the trace is voided when the driver itself let a group idle too long
+	Span   int               `json:"span"`       // rows of one group are at most this many positions apart
+	MaxGap int64             `json:"max_gap_ms"` // real-time scenarios: two rows handed in one after the other (no sleep between them) must not be further apart; else the trace is void
+	Reuse  bool              `json:"reuse"`      // the producer re-uses ONE map object for all its rows (cleared and refilled before each call)
+	Conc   bool              `json:"conc"`       // JOIN scenarios: table updates run in a goroutine of their own, concurrently with EmitSync callers
+	Seed   int64             `json:"seed"`
+	ColMap map[string]string `json:"colmap"` // data columns handed to the engine under other names (orig -> new); the trace keeps the original names
 }
 
 // SeqPerf selects buffer sizes and the overflow strategy.
@@ -68,6 +71,27 @@ type SeqOp struct {
 	Row   map[string]any   `json:"row"`
 	Table string           `json:"table"`
 	Key   []any            `json:"key"`
+}
+
+// unmapRow gives a logged row its original column names back (whole-word, also inside derived names such as "abs(xor)").
+func unmapRow(cm map[string]string, r map[string]any) map[string]any {
+	if len(cm) == 0 {
+		return r
+	}
+	out := make(map[string]any, len(r))
+	for k, v := range r {
+		for orig, nw := range cm {
+			if k == nw {
+				k = orig
+				break
+			}
+			if strings.Contains(k, nw) {
+				k = regexp.MustCompile(`\b`+regexp.QuoteMeta(nw)+`\b`).ReplaceAllString(k, orig)
+			}
+		}
+		out[k] = v
+	}
+	return out
 }
 
 func decodeRow(r map[string]any) map[string]any {
@@ -164,7 +188,7 @@ func RunSeq(sc SeqScenario) (evs []Ev, inconclusive string) {
 	project := func(rs []map[string]any) []any {
 		rows := make([]any, 0, len(rs))
 		for _, r := range rs {
-			rows = append(rows, AbsRow(r))
+			rows = append(rows, unmapRow(sc.ColMap, AbsRow(r)))
 		}
 		if sc.Sort != "" {
 			sort.SliceStable(rows, func(i, j int) bool {
@@ -261,7 +285,7 @@ func RunSeq(sc SeqScenario) (evs []Ev, inconclusive string) {
 			}
 			snap, _ := DeepCopy(row).(map[string]any)
 			handed = append(handed, held{row, snap, i + 1})
-			in.Log(Ev{"tr": sc.Tr, "e": "in", "i": i + 1, "op": op.Op, "row": AbsRow(row)})
+			in.Log(Ev{"tr": sc.Tr, "e": "in", "i": i + 1, "op": op.Op, "row": unmapRow(sc.ColMap, AbsRow(row))})
 			if op.Op == "sync" {
 				res, err, pan := callSync(s, row)
 				e := Ev{"tr": sc.Tr, "e": "ret", "i": i + 1, "panic": pan}
@@ -271,7 +295,7 @@ func RunSeq(sc SeqScenario) (evs []Ev, inconclusive string) {
 					e["err"] = 0
 				}
 				if res != nil {
-					e["row"] = AbsRow(res)
+					e["row"] = unmapRow(sc.ColMap, AbsRow(res))
 					e["has"] = 1
 				} else {
 					e["has"] = 0
